@@ -1,6 +1,7 @@
 """Rules about function spaces (api/space/*.py) shared by C02, C03, C04, C09, C13."""
 
 import ast
+import re
 
 from . import roles, symex
 from .alg import V
@@ -150,3 +151,110 @@ def rwg_sign_rule(ctx):
                 ok = one and two and by[True].target == tgt and by[False].target == tgt
                 why = "single supported neighbour -> %s (must be 1); two neighbours -> `%s` (must be 1 if element == min(neighbours) else -1)" % (unparse(by[True].vnode), unparse(v)[:70])
     r.check(ok, "_compute_rwg0_space_data", MS, fn.name, line, "rwg sign rule", why)
+
+
+def dof_by_entity(ctx):
+    """Conformity by construction: a real (non-zero multiplier) global dof is a function of the geometric entity only
+    (P1: the vertex, RWG/SNC: the edge), and distinct entities get distinct dofs."""
+    SS = "bempp_cl/api/space/scalar_spaces.py"
+    r = ctx.rule("DOF-BY-ENTITY", "continuous spaces: the global dof stored at (element, local index) is an injective function of the vertex (P1) / edge (RWG, SNC) found at that position", 6)
+    # ---------------- P1
+    fn = ctx.repo.mod(SS).fn("_compute_p1_dof_map")
+    defs = roles.Defs(fn)
+    pa = arg_names(fn)
+    G = pa[0]
+    S = roles.stores(fn.body, defs, lv=False)
+    rets = [s for s in fn.body if isinstance(s, ast.Return)]
+    if len(rets) != 1 or not isinstance(rets[0].value, ast.Tuple) or not isinstance(rets[0].value.elts[0], ast.Name):
+        raise AnalysisError("_compute_p1_dof_map: return tuple not recognised")
+    R = rets[0].value.elts[0].id
+    W = rets[0].value.elts[1].id
+    real = []
+    for s in S:
+        if s.op == "=" and isinstance(s.tnode, ast.Subscript) and unparse(s.tnode.value) == R and isinstance(s.tnode.slice, ast.Tuple):
+            comp = [w for w in S if isinstance(w.tnode, ast.Subscript) and unparse(w.tnode.value) == W and unparse(w.tnode.slice) == unparse(s.tnode.slice) and w.loops == s.loops and w.guards == s.guards
+                    and isinstance(w.vnode, ast.Constant) and w.vnode.value == 1]
+            if comp:
+                real.append(s)
+    ok_final, why_final, VMAP, DOFS = False, "no store of a real dof (with multiplier 1) found", None, None
+    if len(real) == 1:
+        s = real[0]
+        e, l = (x.id for x in s.tnode.slice.elts)
+        v = s.vnode
+        # value: DOFS[VMAP[e, l]] through single-definition locals
+        seen = 0
+        while isinstance(v, ast.Name) and seen < 5:
+            d = defs.lookup(v.id, v.lineno)
+            v = d[1] if d and d[0] == "expr" else v
+            seen += 1
+        if isinstance(v, ast.Subscript) and isinstance(v.value, ast.Name):
+            inner = v.slice
+            seen = 0
+            while isinstance(inner, ast.Name) and seen < 5:
+                d = defs.lookup(inner.id, inner.lineno)
+                inner = d[1] if d and d[0] == "expr" else inner
+                seen += 1
+            if isinstance(inner, ast.Subscript) and isinstance(inner.value, ast.Name) and unparse(inner.slice).replace(" ", "").strip("()") == "%s,%s" % (e, l):
+                DOFS, VMAP = v.value.id, inner.value.id
+                ok_final = True
+        why_final = "the real dof stored at (element, local) is `%s`: expected <dof table>[<vertex table>[element, local]]" % unparse(s.vnode)
+    r.check(ok_final, "P1 final map = dofs[vertex at (element, local)]", SS, fn.name, real[0].node.lineno if real else fn.lineno, "p1 dof by vertex (final)", why_final)
+    if ok_final:
+        # the vertex table holds, at (element, local), the vertex found at that position of the element
+        vst = [s for s in S if s.op == "=" and isinstance(s.tnode, ast.Subscript) and unparse(s.tnode.value) == VMAP and isinstance(s.tnode.slice, ast.Tuple)]
+        good, bad = 0, []
+        for s in vst:
+            a, b = s.tnode.slice.elts
+            val = roles.canon(s.vnode, defs).replace(" ", "")
+            if isinstance(a, ast.Name) and isinstance(b, ast.Name) and val == roles.expect("G.elements[L, E]", defs, s.node.lineno, lv=False, G=G, L=b.id, E=a.id):
+                good += 1  # own vertex
+                continue
+            bb = roles.canon(b, defs).replace(" ", "")
+            if isinstance(a, ast.Name) and bb == roles.expect("find_index(G.elements[:, E], X)", defs, s.node.lineno, lv=False, G=G, E=a.id, X=s.vnode):
+                good += 1  # the position of that very vertex in the neighbouring element
+                continue
+            bad.append(unparse(s.node)[:70])
+        r.check(good >= 1 and not bad, "P1 vertex table holds the vertex at that position", SS, fn.name, vst[0].node.lineno if vst else fn.lineno, "p1 vertex table", "stores that put a vertex at a position where the element does not have it: %s" % bad)
+        fi = [n for n in fn.body if isinstance(n, ast.FunctionDef) and n.name == "find_index"]
+        okf = False
+        if len(fi) == 1:
+            fd = roles.Defs(fi[0])
+            fr = [s for s in roles.stores(fi[0].body, fd, lv=False) if s.op == "return" and s.loops]
+            fa = arg_names(fi[0])
+            okf = len(fr) == 1 and isinstance(fr[0].loops[0].target, ast.Tuple) and roles.canon(fr[0].loops[0].iter, fd) == "enumerate(%s)" % fa[0] \
+                and fr[0].value == fr[0].loops[0].target.elts[0].id and fr[0].guards == ((roles.expect("V == X", fd, fr[0].node.lineno, lv=False, V=fr[0].loops[0].target.elts[1].id, X=fa[1]), True),)
+        r.check(okf, "find_index returns the position of the value", SS, "find_index", fi[0].lineno if fi else fn.lineno, "p1 find_index", "find_index does not return i with array[i] == value")
+        dst = [s for s in S if s.op == "=" and isinstance(s.tnode, ast.Subscript) and unparse(s.tnode.value) == DOFS]
+        okd = len(dst) == 1 and not dst[0].loops and not dst[0].guards and isinstance(dst[0].tnode.slice, ast.Name) \
+            and dst[0].value == roles.expect("_np.arange(len(U))", defs, dst[0].node.lineno, lv=False, U=dst[0].tnode.slice.id)
+        r.check(okd, "P1 dof table is arange over the used vertices (injective)", SS, fn.name, dst[0].node.lineno if dst else fn.lineno, "p1 dof numbering", "dof numbers are `%s`" % (dst[0].value[:80] if dst else None))
+    # ---------------- RWG / SNC
+    fn = ctx.repo.mod(MS).fn("_compute_rwg0_space_data")
+    defs = roles.Defs(fn)
+    pa = arg_names(fn)
+    S = roles.stores(fn.body, defs, lv=False)
+    rets = [s for s in fn.body if isinstance(s, ast.Return)]
+    R = rets[0].value.elts[2].id if rets and isinstance(rets[0].value, ast.Tuple) and len(rets[0].value.elts) == 4 and isinstance(rets[0].value.elts[2], ast.Name) else None
+    rows = [s for s in S if R and s.op == "=" and isinstance(s.tnode, ast.Subscript) and unparse(s.tnode.value) == R and isinstance(s.vnode, ast.Name)]
+    ok_e, why_e, ED = False, "row copy into the map not found", None
+    if len(rows) == 1 and isinstance(rows[0].tnode.slice, ast.Tuple) and isinstance(rows[0].tnode.slice.elts[0], ast.Name):
+        buf, e = rows[0].vnode.id, rows[0].tnode.slice.elts[0].id
+        real = [s for s in S if s.op == "=" and isinstance(s.tnode, ast.Subscript) and unparse(s.tnode.value) == buf and isinstance(s.tnode.slice, ast.Name)
+                and not (isinstance(s.vnode, ast.Subscript) and unparse(s.vnode.value) == buf)]
+        if len(real) == 1:
+            l = real[0].tnode.slice.id
+            val = roles.canon(real[0].vnode, defs).replace(" ", "")
+            m_ = re.fullmatch(r"(\w+)\[(.+)\]", val)
+            edge = roles.expect("EE[L, E]", defs, real[0].node.lineno, lv=False, EE="element_edges" if "element_edges" in pa else pa[3], L=l, E=e)
+            if m_ and m_.group(2) == edge:
+                ok_e, ED = True, m_.group(1)
+            why_e = "the dof stored at (element, local) is `%s`: expected <edge dof table>[element_edges[local, element]]" % val
+    r.check(ok_e, "RWG map = edge_dofs[edge at (element, local)]", MS, fn.name, rows[0].node.lineno if rows else fn.lineno, "rwg dof by edge", why_e)
+    if ok_e:
+        est = [s for s in S if s.op == "=" and isinstance(s.tnode, ast.Subscript) and unparse(s.tnode.value) == ED]
+        cnts = [c for c in S if c.op == "Add=" and isinstance(c.tnode, ast.Name) and c.value == "1"]
+        fresh = bool(est)
+        for s in est:
+            same_block = any(c.target == unparse(s.vnode) and c.guards == s.guards and c.loops == s.loops and c.node.lineno > s.node.lineno for c in cnts)
+            fresh = fresh and same_block
+        r.check(fresh, "RWG edge dofs are fresh counter values (injective)", MS, fn.name, est[0].node.lineno if est else fn.lineno, "rwg dof numbering", "an edge dof is not the running counter incremented right after the assignment")
